@@ -64,7 +64,8 @@ def parse_user_define(text):
 def unqote(text):
     """Strip pair of leading and trailing quotes from text."""
     # -- QUOTED: Strip single-quote or double-quote pair.
-    if ((text.startswith('"') and text.endswith('"')) or
+    if len(text) >= 2 and (
+            (text.startswith('"') and text.endswith('"')) or
             (text.startswith("'") and text.endswith("'"))):
         text = text[1:-1]
     return text
